@@ -287,6 +287,14 @@ theorem probe_limits :
     Gen.probe_shutdownErrCond = "err != nil && !errors.Is(err, llrp.ErrClientClosed)" ∧ Gen.probe_forceCloseGuard = "" := by
   decide
 
+/-- **run_bound_sites.** `run_bounded` is about a run started under a context that ends after the configured maximum
+duration. In the source every discovery run goes through `Driver.Discover`, which attaches
+`context.WithTimeout(MaxDiscoverDurationSeconds)` (when it is positive) before it calls `discover`; `discover` is the only
+caller of `autoDiscover`. A run started any other way would not be bounded by the maximum. -/
+theorem run_bound_sites :
+    Gen.discover_callers = ["Driver.Discover"] ∧ Gen.autoDiscover_callers = ["Driver.discover"] ∧
+    Gen.discover_bound = "WithTimeout(time.Duration(maxSeconds) * time.Second) if maxSeconds > 0" := by decide
+
 /-- **skip_cond.** `skip_rule` is about `shouldProbe registered up`; the source decides "up" by the operating state of the
 registered device alone (no other attribute, such as the administrative state, takes part). -/
 theorem skip_cond : Gen.probe_skipCond = "d.OperatingState == contract.Up" := by decide
